@@ -145,7 +145,7 @@ META = {
     ),
     "outside": [
         "energy never below / equal to the exact ground energy, normalisation and canonical form of the returned state (C08 + QR/eigh numerics)",
-        "more than 3 sweeps, N > 5",
+        "more than 5 sweeps, N > 7 (thorough; quick: N <= 4, 3 sweeps)",
         "the first sweep of a later time step compares with the final energy of the previous time step (previous_energy is not reset) - reported as an observation, not checked",
     ],
     "assumptions": ["local minimisation returns arbitrary energies in [-50, 50]"],
@@ -154,7 +154,7 @@ META = {
 
 def cases(tier):
     out = []
-    grid = [(2, 3, 2000), (3, 3, 2000), (4, 2, 2000), (3, 3, 2)] if tier == "quick" else [(2, 3, 2000), (3, 3, 2000), (4, 3, 2000), (5, 2, 2000), (3, 3, 2), (2, 3, 1)]
+    grid = [(2, 3, 2000), (3, 3, 2000), (4, 2, 2000), (3, 3, 2)] if tier == "quick" else [(2, 3, 2000), (3, 3, 2000), (4, 3, 2000), (5, 2, 2000), (3, 3, 2), (2, 3, 1), (6, 2, 2000), (7, 2, 2000), (3, 5, 2000), (4, 4, 3)]
     for n, s, ms in grid:
         out.append(
             Case(
